@@ -86,6 +86,38 @@ def run(ctx):
             b = member_of_param(c["args"][1], sw.params[1]["decl"])
             if a and a == b:
                 swapped.add(a)
+    if not swapped:
+        # one tuple of references per operand, built by the same lambda (so both list the same members), then one tuple swap
+        lam_of = {}
+        for d, es in facts.local_defs(sw).items():
+            for e in es:
+                for x in walk(e):
+                    if x.get("k") == "lambda":
+                        lam_of[d] = x
+        views = {}  # local -> (lambda decl, operand index)
+        for d, es in facts.local_defs(sw).items():
+            if len(es) != 1:
+                continue
+            for x in walk(es[0]):
+                if x.get("k") == "call" and (x.get("callee") or {}).get("nm") == "operator()" and "obj" in x and x.get("args"):
+                    o = strip_all_casts(x["obj"])
+                    a0 = strip_all_casts(x["args"][0])
+                    if o.get("decl") in lam_of and a0.get("decl") in (sw.params[0]["decl"], sw.params[1]["decl"]):
+                        views[d] = (o["decl"], 0 if a0["decl"] == sw.params[0]["decl"] else 1)
+        for c in sw.calls():
+            nmc = (c.get("callee") or {}).get("nm")
+            ops = ([c["obj"]] if "obj" in c else []) + c.get("args", [])
+            if nmc == "swap" and len(ops) == 2:
+                d0, d1 = strip_all_casts(ops[0]).get("decl"), strip_all_casts(ops[1]).get("decl")
+                if d0 in views and d1 in views and views[d0][0] == views[d1][0] and {views[d0][1], views[d1][1]} == {0, 1}:
+                    lam = lam_of[views[d0][0]]
+                    prm = lam.get("params", [{}])[0].get("decl")
+                    ties = [x for x in walk(lam.get("body", {})) if x.get("k") == "call" and callee_name(x) == "std::tie"]
+                    if len(ties) == 1:
+                        for a in ties[0].get("args", []):
+                            fld = member_of_param(a, prm)
+                            if fld:
+                                swapped.add(fld)
     missing = [f for f in fields if f not in swapped]
     res.check(not missing, "C14-R1", "swap(Packet&,Packet&):members", sw.loc, "all %d members swapped pairwise" % len(fields),
               "swap(Packet&, Packet&) does not swap %s: moves and assignments lose that member" % [m.split("::")[-1] for m in missing])
